@@ -100,6 +100,9 @@ def tlc_stats(out):
     return (int(m.group(1)), int(m.group(2))) if m else (0, 0)
 
 
+CONN_PREFIXES = tuple('{"e":"%s"' % k for k in ("reset", "cfg", "call", "cancel_all", "destroy", "cancel_op", "resolve", "resolve_end",
+                                                     "attempt", "attempt_end", "fire"))
+
 # ----------------------------------------------------------------- scenario execution + trace validation
 def _run_shard(args):
     binary, scripts, trace, tlcout = args
@@ -145,6 +148,20 @@ def _run_shard(args):
     if "REJECTED" in out3 or rc3 != 0:
         return dict(ok=False, err="trace not consumed by TraceSender (rc=%d): %s" % (rc3, out3[-2000:]))
     for line in out3.splitlines():
+        line = line.strip().strip('"')
+        if line.startswith("DEV "):
+            p = line.split()
+            dev.append((int(p[1]), int(p[2]), p[3]))
+    # connection handling vs Conn.tla (rotation, endpoints, backoff exponent, run / cancel): same status as above
+    ctrace = trace + ".conn"
+    with open(trace) as f, open(ctrace, "w") as g:
+        for l in f:
+            if l.startswith(CONN_PREFIXES) : g.write(l)
+    rc4, out4 = tlc("TraceConn.tla", "TraceConn.cfg", env=dict(TRACE=ctrace), workers=1, timeout=3000, java_opts="-Xmx3g")
+    os.remove(ctrace)
+    if "REJECTED" in out4 or rc4 != 0:
+        return dict(ok=False, err="trace not consumed by TraceConn (rc=%d): %s" % (rc4, out4[-2000:]))
+    for line in out4.splitlines():
         line = line.strip().strip('"')
         if line.startswith("DEV "):
             p = line.split()
